@@ -308,7 +308,9 @@ func TestC05(t *testing.T) {
 	}
 	scan.Sub.Note("the enumeration up to length %d is complete over all shards", L)
 
-	frag := []string{"{{", "}}", "{%", "%}", "{{-", "-}}", "{%-", "-%}", "\n", " ", "\r\n", "{", "}", "%", "-", "a", "x y", "if", "raw", "endraw", "comment", "\"", "'", "é", "😀", "\x00", "\xff", "{% raw %}", "{% endraw %}", "{{ x }}", "{%\nif x\n%}"}
+	frag := []string{"{{", "}}", "{%", "%}", "{{-", "-}}", "{%-", "-%}", "\n", " ", "\r\n", "{", "}", "%", "-", "a", "x y", "if", "raw", "endraw", "comment", "\"", "'", "é", "😀", "\x00", "\xff", "{% raw %}", "{% endraw %}", "{{ x }}", "{%\nif x\n%}",
+		// characters an input-normalising step might touch: byte-order mark, other line ends, invisible and replacement characters
+		"\ufeff", "\r", "\t", "\v", "\f", "\u2028", "\u0085", "\u00a0", "\u200b", "\ufffd", "\x1a", "\xef\xbb", "\xef\xbb\xbf{{ x }}"}
 	genSrc := rapid.Custom(func(t *rapid.T) string {
 		n := rapid.SampledFrom([]int{4, 8, 16, 64, 400, 4000, 16000}).Draw(t, "size")
 		var sb strings.Builder
@@ -329,7 +331,7 @@ func TestC05(t *testing.T) {
 	})
 
 	blk := c05Block.On(col, "bounded-exhaustive: X{% raw %}B{% endraw %}Y and X{% comment %}B{% endcomment %}Y for every body B of length 0..5 over the same alphabet that keeps to itself (every {{ or {% opening in B is closed inside B, B does not end in {, no end tag of the block inside: decided by a reference scan, independent of the implementation) with X, Y from a small set; then rapid: bodies built from tag-like text, failing constructs (unknown tags and filters, syntax errors, division by zero), multi-line and non-ASCII text. Oracle: raw => X+B+Y; comment => X+Y and no error. Excluded bodies are counted. Non-trivial: the body contains a delimiter character; distinct by template", false)
-	xs := []string{"", "a", " \n", "}}"}
+	xs := []string{"", "a", " \n", "}}", "\ufeff"}
 	var bodies func(cur []byte, n int)
 	bodies = func(cur []byte, n int) {
 		idx++
@@ -367,7 +369,7 @@ func TestC05(t *testing.T) {
 	}
 
 	val := c05Value.On(col, "rapid: string values - arbitrary bytes, valid UTF-8, HTML/URL specials, delimiter text ({{ x }}, {% raw %}), white space at the edges, up to 64 KiB - printed by an object directly and after a nested lookup, assign and capture; oracle: emitted exactly. Non-trivial: non-empty; distinct by value", false)
-	vfrag := []string{"<", ">", "&", "\"", "'", "{{ x }}", "{% raw %}", "%}", " ", "\n", "\t", "é", "😀", "\x00", "\xff\xfe", "&amp;", "%20", "\\", "a"}
+	vfrag := []string{"<", ">", "&", "\"", "'", "{{ x }}", "{% raw %}", "%}", " ", "\n", "\t", "é", "😀", "\x00", "\xff\xfe", "&amp;", "%20", "\\", "a", "\ufeff", "\r\n", "\u2028", "\u200b"}
 	col.Rapid(val.Sub, env.PerShard(env.Pick(40000, 400000)), func(t *rapid.T) {
 		var v string
 		if rapid.Bool().Draw(t, "bytes") {
